@@ -8,7 +8,7 @@ def run(run):
     run.rule = ('contexts as C03 with intents of at most 12 properties; for every concept list(attributes()) and minimal() against '
                 'the model\'s shortlex-ordered filter of the powerset; every yielded set regenerates the concept via lattice(...)')
     d = run.driver
-    for tab, pc in lat.contexts(run, exh_quick=9, rand_quick=300, wide_quick=0, exh_thorough=12, nmax=9, mmax=9):
+    for tab, pc in lat.contexts(run, exh_quick=10, rand_quick=300, wide_quick=0, exh_thorough=14, nmax=9, mmax=9):
         if pc.m > 12 or pc.n > 40:
             continue
         extra = {'objects': pc.objects, 'properties': pc.properties, 'bools': pc.bools}
